@@ -26,6 +26,7 @@ RULE = (
     "sets + random otherwise) and VMDK.read_sectors; the inflate monitor checks every grain inflates to at most "
     "the grain size; plus the SE-sparse fixture against a naive reference reader. Non-trivial: >=2 allocated "
     "grains not in file order, or a mix of grain states; distinct = distinct (kind, geometry, map) signatures."
+    " Every stream additionally goes through: continuation sequences (read, visit elsewhere or have another user move the shared handles, resume at the earlier end / buffer end), reads under an injected transient backend I/O error followed by a retry on the same object (the failed call may raise; returned bytes must be right), and long reads (whole disk up to 24 MiB, else 6-24 MiB windows)."
 )
 ASSUMPTIONS = [
     "the harness's VMDK writers/reference reader are a faithful reading of the VMDK 5.0 spec and qemu's SE-sparse notes",
